@@ -180,12 +180,67 @@ def shaped_case(ctx, seed):
     ctx.count('shaped:certificate-ok:' + name)
 
 
+def pw_objective_duals(ctx, seed):
+    """LPs whose objective is written with maxof / minof, or as a worst case over a box (minmax / maxmin): the duals of the
+    linear constraints follow the sign rule of the model's sense and reproduce the optimum (sum of dual * rhs, the epigraph rows of
+    the objective have right-hand side 0), exactly as for the same LP written with an explicit epigraph variable"""
+    import rsome as rso
+    from rsome import ro
+    r = np.random.default_rng(seed)
+    ctx.search_cases += 1; ctx.evaluations += 1
+    n = int(r.integers(2, 4)); mx = bool(r.random() < 0.5)
+    kind = str(r.choice(['piecewise', 'robust']))
+    A = r.choice([0., 1., 2., 3.], (2, n)); A[0] = np.maximum(A[0], 1.0); b = r.choice([4., 5., 7.], 2)
+    P = r.choice([0., 1., 2., 3.], (2, n)); P[:, 0] = np.maximum(P[:, 0], 1.0)
+    hi = r.choice([3., 4.], n)
+    case = {"pw_seed": seed, "kind": kind, "max": mx}
+
+    def build(epigraph):
+        m = ro.Model(); x = m.dvar(n)
+        sgn = 1.0 if mx else -1.0          # max of concave pieces / min of convex pieces (the mirror image)
+        cons = [m.st(sgn * (A[i] @ x) <= sgn * b[i] if mx else A[i] @ x >= -b[i] + 2 * b[i]) for i in range(2)] if False else             [m.st(A[i] @ x <= b[i]) for i in range(2)]
+        ub = m.st(x <= hi); lb = m.st(x >= 0)
+        if kind == 'piecewise':
+            if epigraph:
+                t = m.dvar()
+                if mx:
+                    m.st(t <= P[0] @ x, t <= P[1] @ x); m.max(t)
+                else:
+                    m.st(t >= -(P[0] @ x), t >= -(P[1] @ x)); m.min(t)
+            else:
+                (m.max(rso.minof(P[0] @ x, P[1] @ x)) if mx else m.min(rso.maxof(-(P[0] @ x), -(P[1] @ x))))
+        else:
+            z = m.rvar(n)
+            e = ((1 + 0.5 * z) * (P[0] * x)).sum()
+            (m.maxmin(e, abs(z) <= 1) if mx else m.minmax(-e, abs(z) <= 1))
+        m.solve(display=False)
+        return m, cons, ub, lb
+    try:
+        with C.quiet():
+            m, cons, ub, lb = build(False)
+            opt = float(m.get())
+            duals = [float(np.asarray(c.dual()).reshape(-1)[0]) for c in cons]
+            du = np.asarray(ub.dual(), dtype=float).reshape(-1); dl = np.asarray(lb.dual(), dtype=float).reshape(-1)
+    except Exception as ex:
+        ctx.count('pw-duals:not-solved:' + type(ex).__name__); return
+    sgn = 1.0 if mx else -1.0
+    tol = 1e-6
+    if any(sgn * d < -tol for d in duals) or np.any(sgn * du < -tol) or np.any(sgn * dl > tol):
+        ctx.hit('certificate-fails:sign of duals (piecewise / robust objective)', {"row_duals": duals, "upper_bound_duals": du.tolist(), "lower_bound_duals": dl.tolist(), "max": mx}, case); return
+    val = float(np.dot(duals, b) + du @ hi)
+    if abs(val - opt) > 1e-6 * (1 + abs(opt)):
+        ctx.hit('certificate-fails:value identity (piecewise / robust objective)', {"dual_value": val, "optimum": opt}, case); return
+    ctx.count('pw-duals:ok:' + kind + (':max' if mx else ':min'))
+
+
 def run(ctx):
     from rsome import eco_solver, grb_solver
     C.run_difftest(ctx, 'test_dual.py', ctx.n(150, 3000), 'ciarray, compiled rows and LinConstr.dual()/Bounds.dual() read-back')
     ifaces = [('default', None), ('ecos', eco_solver), ('gurobi', grb_solver)]
     for k in range(ctx.n(60, 1200)):
         shaped_case(ctx, int(ctx.rng.integers(2 ** 31)))
+    for k in range(ctx.n(40, 600)):
+        pw_objective_duals(ctx, int(ctx.rng.integers(2 ** 31)))
     for k in range(ctx.n(60, 1200)):
         seed = int(ctx.rng.integers(2 ** 31))
         r = np.random.default_rng(seed)
@@ -221,6 +276,9 @@ def run(ctx):
 def replay(rp):
     from rsome import eco_solver, grb_solver
     c = rp['case']
+    if 'pw_seed' in c:
+        cx = C.Ctx('C14', 'quick', 0); pw_objective_duals(cx, c['pw_seed'])
+        return {"failures": [(h['key'], h['detail']) for h in cx.hits], "fails": bool(cx.hits)}
     if 'shaped' in c:
         class _Ctx:
             def __init__(self): self.hits = []; self.search_cases = 0; self.evaluations = 0
